@@ -280,12 +280,12 @@ def build_valid(h, rng, cap):
 
 
 DAMAGE_KINDS = ["unsorted_leaf", "unsorted_branch", "dup_leaf", "dup_branch", "count_vpop", "count_kpop",
-                "count_pushk", "count_pushv", "overfill", "overfill_branch", "underfill_leaf", "underfill_branch", "keyout_lo", "keyout_hi",
+                "count_pushk", "count_pushv", "overfill", "overfill_branch", "overfill_branch_valid", "underfill_leaf", "underfill_branch", "keyout_lo", "keyout_hi",
                 "child_pop", "child_dup", "branch_nochild", "badref_child", "badref_root", "chain_trunc", "chain_skip",
                 "chain_misorder", "chain_unalloc", "orphan_leaf", "orphan_branch", "none"]
 
 
-def damage_lines(kind, rng, cap, h, p=None, bp=None, ki=None):
+def damage_lines(kind, rng, cap, h, p=None, bp=None, ki=None, npush=None):
     # positions and indexes are drawn blindly; an edit that does not apply is a no-op.
     # wide ranges so that last children / rightmost leaves / last keys are hit as well
     if p is None:
@@ -312,17 +312,29 @@ def damage_lines(kind, rng, cap, h, p=None, bp=None, ki=None):
         return [f"DMG LKPOP {p}"]
     if kind == "count_pushk":
         return [f"DMG LPUSHK {p} {BIG} {h.sid}"]
+    if npush is None:
+        # exactly one above capacity needs the right count for the node's occupancy: vary it
+        npush = rng.choice([cap + 1, rng.randint(1, cap + 1)])
     if kind == "overfill":
         out = []
-        for i in range(cap + 1):
+        for i in range(npush):
             out.append(f"DMG LPUSH {p} {BIG + i} {h.sid} {h.sid * 10}")
             h.sid += 1
         return out
     if kind == "overfill_branch":
         out = []
-        for i in range(cap + 1):
+        for i in range(npush):
             out.append(f"DMG BPUSH {bp} {BIG + i} {h.sid}")
             h.sid += 1
+        return out
+    if kind == "overfill_branch_valid":
+        # whole, valid leaves are appended (with separators) to a branch whose last child is a
+        # leaf: on the rightmost bottom branch nothing but the branch's key count is wrong
+        out = []
+        n = (cap + 1) // 2
+        for i in range(npush):
+            out.append(f"DMG BPUSHL {bp} {n} {BIG + 100 * i} {h.sid} {h.sid * 10}")
+            h.sid += n
         return out
     if kind == "underfill_leaf":
         return [f"DMG LTRUNC {p} {rng.choice([0, 1, max(0, cap // 2 - 1)])}"]
@@ -359,7 +371,7 @@ def damage_lines(kind, rng, cap, h, p=None, bp=None, ki=None):
 
 LEAF_KINDS = ["unsorted_leaf", "dup_leaf", "count_vpop", "count_kpop", "count_pushk", "count_pushv", "overfill",
               "underfill_leaf", "keyout_lo", "keyout_hi", "chain_trunc", "chain_skip", "chain_misorder", "chain_unalloc"]
-BRANCH_KINDS = ["unsorted_branch", "dup_branch", "underfill_branch", "overfill_branch", "branch_nochild", "child_pop", "child_dup", "badref_child"]
+BRANCH_KINDS = ["unsorted_branch", "dup_branch", "underfill_branch", "overfill_branch", "overfill_branch_valid", "branch_nochild", "child_pop", "child_dup", "badref_child"]
 
 
 def gen_c14_sweep(seed, shard, nshards):
@@ -367,13 +379,17 @@ def gen_c14_sweep(seed, shard, nshards):
     node position, one tiny history each; sharded round-robin"""
     rng = random.Random(f"C14-sweep-{seed}")
     builds = [(4, list(range(40))), (5, list(range(59, -1, -1))), (4, [(7 * i) % 31 for i in range(31)]),
-              (6, list(range(100)))]
+              (6, list(range(100))), (4, list(range(10))), (5, list(range(14))), (7, list(range(20)))]
     out, n = [], 0
     for bi, (cap, keys) in enumerate(builds):
-        combos = [(k, p_, None, None) for k in LEAF_KINDS for p_ in range(0, 24)]
-        combos += [(k, None, bp_, ki_) for k in BRANCH_KINDS for bp_ in range(0, 12) for ki_ in (0, 1, cap - 1)]
-        combos += [(k, None, None, None) for k in ("badref_root", "orphan_leaf", "orphan_branch")]
-        for (kind, p_, bp_, ki_) in combos:
+        combos = [(k, p_, None, None, None) for k in LEAF_KINDS for p_ in range(0, 24)]
+        combos += [(k, None, bp_, ki_, None) for k in BRANCH_KINDS for bp_ in range(0, 12) for ki_ in (0, 1, cap - 1)]
+        combos += [(k, None, None, None, None) for k in ("badref_root", "orphan_leaf", "orphan_branch")]
+        # every number of pushed entries: reaches exactly capacity+1 whatever the node's occupancy
+        combos += [("overfill", p_, None, None, n_) for p_ in (0, 1, 3, 6) for n_ in range(1, cap + 2)]
+        combos += [("overfill_branch", None, bp_, None, n_) for bp_ in (0, 1, 2, 4) for n_ in range(1, cap + 2)]
+        combos += [("overfill_branch_valid", None, bp_, None, n_) for bp_ in range(0, 10) for n_ in range(1, cap + 2)]
+        for (kind, p_, bp_, ki_, np_) in combos:
             n += 1
             if n % nshards != shard:
                 continue
@@ -381,7 +397,7 @@ def gen_c14_sweep(seed, shard, nshards):
             for k in keys:
                 h.add(f"I {k} {h.sid} {h.sid * 10}")
                 h.sid += 1
-            for l in damage_lines(kind, rng, cap, h, p=p_, bp=bp_, ki=ki_):
+            for l in damage_lines(kind, rng, cap, h, p=p_, bp=bp_, ki=ki_, npush=np_):
                 h.add(l)
             h.add("V")
             h.add(f"TI {rng.randrange(len(keys))} {h.sid} {h.sid * 10}")
